@@ -213,6 +213,12 @@ TRotForce ==   \* the driver is about to call the rotation itself
   /\ rot' = "due"
   /\ UNCHANGED <<vars, pend, atag>>
 
+(* the driver waited 100 poll periods for a rotation that was due *)
+TRotationOverdue ==
+  /\ Ev.a = "RotationOverdue"
+  /\ "Rotate" \notin Strict
+  /\ UNCHANGED vars /\ KeepAux
+
 TRotate ==
   /\ Ev.a = "Rotate"
   /\ ("Rotate" \in Strict => rot = "due")
@@ -310,6 +316,14 @@ KeyNeverChangesStep ==
 
 BansMonotoneStep == Ev.a # "Reset" => bans \subseteq bans'
 
+(* C04: what a start on the files would produce equals the memory of the   *)
+(* process that wrote them.  Evaluated in the state before a start-up (the  *)
+(* state left by the preceding Close); unprimed on purpose, TLC does not    *)
+(* cache lazily evaluated arguments of recursive operators in primed        *)
+(* expressions.                                                             *)
+RestartEquivAtStart ==
+  (Ev.a = "StartBegin" /\ disk.keys # "absent") => RestartEquivNow
+
 InvByName(n) ==
   CASE n = "SlotIsFunctionOfSet" -> SlotIsFunctionOfSet'
     [] n = "IndexInBounds"       -> IndexInBounds'
@@ -323,6 +337,7 @@ InvByName(n) ==
     [] n = "ArchiveImmutable"    -> ArchiveImmutableStep
     [] n = "KeyNeverChanges"     -> KeyNeverChangesStep
     [] n = "BansMonotone"        -> BansMonotoneStep
+    [] n = "RestartEquiv"        -> RestartEquivAtStart
 
 InvCheck ==
   IF l = DiagLine
@@ -406,7 +421,7 @@ TNext ==
   /\ l <= Len(Trace)
   /\ Step
   /\ \/ TReset \/ TTick \/ TStartBegin \/ TStart \/ TClose
-     \/ TCatchUpPoll \/ TRotPoll \/ TRotGo \/ TRotForce \/ TRotate
+     \/ TCatchUpPoll \/ TRotPoll \/ TRotGo \/ TRotForce \/ TRotate \/ TRotationOverdue
      \/ TRecvReport \/ TUDPRead
      \/ TRegister \/ TRegisterResp \/ TAuthorize \/ TAuthorizeResp
      \/ TImpactList \/ TImpactSet
